@@ -291,6 +291,30 @@ def error_count_cases(binfo, scratch):
     return out
 
 
+def odd_name_cases(binfo, scratch):
+    """No injected fault: legal but unusual source file names; exit 0 must leave the outputs
+    under the name the compiler derives from the source name."""
+    out = []
+    for src, arg, base in (("-.as", "./-.as", "-"), ("x.y.as", "x.y.as", "x.y"), ("a b.as", "a b.as", "a b"), ("--.as", "./--.as", "--")):
+        w = scratch.new()
+        fl = ["-Fc", "-Ffm", "-Fao", "-Flsp"]
+        r = worlds.compile_world(binfo, w, {src: worlds.HELLO}, fl, [arg], cpu=60)
+        vsim.cleanup_world(w)
+        desc = "aldor %s '%s'" % (" ".join(fl), arg)
+        verdict, detail = None, ""
+        fc = worlds.fault_class(r)
+        if fc:
+            verdict, detail = fc, (r.out + r.err)[-200:].decode("latin-1", "replace")
+        elif r.rc == 0:
+            missing = [base + e for e in (".c", ".fm", ".ao", ".lsp") if not r.files.get(base + e)]
+            if missing:
+                verdict, detail = "exit0-missing-output", "exit 0 but %s not written (have %s)" % (", ".join(missing), ", ".join(sorted(r.files)))
+        elif not worlds.has_diag(r):
+            verdict, detail = "silent-refusal", "exit %r without a diagnostic" % r.rc
+        out.append((verdict, detail, desc, "srcname-" + src))
+    return out
+
+
 def vkey(verdict, plan, detail):
     kinds = "+".join(sorted(set(ev["k"] for ev in plan)))
     cls = "+".join(sorted(set(ev.get("c", "dir") for ev in plan)))
@@ -307,7 +331,7 @@ def main(argv):
 
     with vsim.Scratch("c18") as scratch:
         if replay and "other_directory" in json.load(open(replay)):
-            od = [x for x in other_directory_cases(binfo, scratch) + explicit_name_cases(binfo, scratch) + error_count_cases(binfo, scratch) if x[3] == json.load(open(replay))["other_directory"]]
+            od = [x for x in other_directory_cases(binfo, scratch) + explicit_name_cases(binfo, scratch) + error_count_cases(binfo, scratch) + odd_name_cases(binfo, scratch) if x[3] == json.load(open(replay))["other_directory"]]
             vsim.say("replay: %s" % [(v, d) for v, d, _, _ in od])
             if any(v for v, _, _, _ in od):
                 vsim.say("VIOLATION property=%s replay=%s" % (PID, replay))
@@ -460,11 +484,11 @@ def main(argv):
             out.violations.append({"key": key, "cls": v2, "detail": d2, "replay": rp})
 
         # ---- saved forms in another directory (independent expectation, no fault) -----------
-        od = other_directory_cases(binfo, scratch) + explicit_name_cases(binfo, scratch) + error_count_cases(binfo, scratch)
+        od = other_directory_cases(binfo, scratch) + explicit_name_cases(binfo, scratch) + error_count_cases(binfo, scratch) + odd_name_cases(binfo, scratch)
         for verdict, detail, desc, kind in od:
             if not verdict:
                 continue
-            key = "%s:%s:%s" % (verdict, "explicit-name" if kind.startswith("name-") else "error-count" if kind.startswith("errors-") else "other-directory-input", kind)
+            key = "%s:%s:%s" % (verdict, "explicit-name" if kind.startswith("name-") else "error-count" if kind.startswith("errors-") else "source-name" if kind.startswith("srcname-") else "other-directory-input", kind)
             text = out.classify(key)
             if text is not None:
                 out.known.append({"key": key, "text": text})
